@@ -69,8 +69,21 @@ func VH_C19(p []int) {
 		a := vhAliasStack(s)
 		outer = Or().Push(&a, "y")
 	}
+	if p[1] != 0 && nondetChoice(2) == 1 {
+		// the holder carries an error some earlier call left behind and
+		// forward indices (so that its own, gap-free pass does not clear it):
+		// what it holds is compacted all the same
+		if ocfg, _ := outer.config(); ocfg != nil {
+			ocfg.opt |= fwdidx
+			ocfg.err = errorf("left behind by an earlier call")
+		}
+	}
 	if p[2] == 0 {
-		outer.Defrag()
+		if nondetChoice(2) == 1 {
+			outer.Defrag(0) // zero is no limit at all: the default applies
+		} else {
+			outer.Defrag()
+		}
 	} else {
 		limit := nondetInt()
 		// precondition of the statement: every nil run is shorter than the limit
